@@ -2,6 +2,7 @@ import Driver.Expr
 import Driver.Flow
 import Driver.Riscv
 import Driver.Msp430
+import Driver.M6502
 import Driver.Cond
 import Driver.Sym
 import Driver.TwoPass
@@ -22,6 +23,7 @@ import Driver.Nest
 def isa (cmd : String) (args : List String) : String :=
   match args with
   | "msp430" :: _ => Driver.Msp430.handle cmd args
+  | "6502" :: _ => Driver.M6502.handle cmd args
   | _ => Driver.Riscv.handle cmd args
 
 def dispatch (line : String) : String :=
